@@ -107,6 +107,9 @@ func findSelectorExprViolation(
 	// Check different types of objects
 	switch obj := obj.(type) {
 	case *types.TypeName:
+		if target := aliasTarget(obj); target != nil {
+			return findTypeViolation(ctx, target.Pkg().Path(), target.Name(), expr.Pos())
+		}
 		return findTypeViolation(ctx, pkgPath, obj.Name(), expr.Pos())
 
 	case *types.Func:
@@ -141,6 +144,9 @@ func findIdentViolation(
 
 	switch obj := obj.(type) {
 	case *types.TypeName:
+		if target := aliasTarget(obj); target != nil {
+			return findTypeViolation(ctx, target.Pkg().Path(), target.Name(), ident.Pos())
+		}
 		return findTypeViolation(ctx, ctx.currentPkgPath, obj.Name(), ident.Pos())
 
 	case *types.Func:
@@ -155,6 +161,19 @@ func findIdentViolation(
 	}
 
 	return nil
+}
+
+// aliasTarget returns the defined type an alias type name stands for, or nil
+// if obj is not an alias of a defined type declared in a package.
+func aliasTarget(obj *types.TypeName) *types.TypeName {
+	if !obj.IsAlias() {
+		return nil
+	}
+	named, ok := types.Unalias(obj.Type()).(*types.Named)
+	if !ok || named.Obj().Pkg() == nil {
+		return nil
+	}
+	return named.Obj()
 }
 
 // findTypeViolation checks if a type usage violates @packageonly restrictions
